@@ -14,6 +14,7 @@ void gen_async_ops(Rng &g, run::Plan &p, int nops, bool ha, int neps) {
 	struct W { const char *k; int w; };
 	std::vector<W> ws = {{"ADD", 20}, {"RUN", 26}, {"SRVREAD", 10}, {"REPLY", 16}, {"DELIVER", 16}, {"TICK", 6}, {"FREE", 3}, {"READD", 4}};
 	if (p.c("recreate", 0)) ws.push_back({"RECREATE", 2});
+	if (ha && p.c("repoint", 0)) ws.push_back({"REPOINT", 3});
 	if (!ha && p.c("growcache", 0)) ws.push_back({"GROWCACHE", 3});
 	if (adv) { ws.push_back({"DUP", 2}); ws.push_back({"PREMATURE", ha ? 0 : 2}); ws.push_back({"PUSHCONF", ha ? 6 : 2}); ws.push_back({"TAMPER", c06 ? 12 : 2}); }
 	else if (ha) ws.push_back({"PUSHCONF", 6});
